@@ -727,7 +727,7 @@ V("C04", "flush_keeps_event_queue", "fire", "R04.c", (Z, """            watchers
 """, """            watchers = self_._state_watchers[:]
             self_._state_watchers = []
 """))
-V("C04", "flush_event_map_keyed_by_name_only", "fire", "R04.c", (Z, "            event_dict = OrderedDict([((event.name, event.what), event)\n                                      for event in self_._events])", "            event_dict = OrderedDict([((event.name, 'value'), event)\n                                      for event in self_._events])"))
+V("C04", "flush_event_map_keyed_by_name_only", "fire", "R04.h", (Z, "            event_dict = OrderedDict([((event.name, event.what), event)\n                                      for event in self_._events])", "            event_dict = OrderedDict([((event.name, 'value'), event)\n                                      for event in self_._events])"))
 V("C04", "discard_restores_alias", "fire", "R04.d", (Z, """    watchers, events = (list(parameterized.param._state_watchers),
                         list(parameterized.param._events))
 """, """    watchers, events = (parameterized.param._state_watchers,
